@@ -7,6 +7,7 @@ DRIVER = 'harness/latch_drv.cpp'
 EXTRACT = 'Extract/LatchExtract.v'
 ML = 'latch_model'
 SANITIZE = False
+ENUM = True
 
 ARRIVE, WAIT, ARRIVE_WAIT = 0, 1, 2
 
@@ -81,3 +82,10 @@ def mon_arrive_blocks(case, lines):
 
 
 MONITORS = {'early_return': mon_early_return, 'lost_wakeup': mon_lost_wakeup, 'arrive_blocks': mon_arrive_blocks}
+
+
+def gen_small(rng, spec):
+    nt = rng.range(2, 3)
+    progs = [[[rng.pick([ARRIVE, WAIT, ARRIVE_WAIT])] for _ in range(1 if nt == 3 else rng.range(1, 2))] for _ in range(nt)]
+    arrivals = sum(1 for p in progs for o in p if o[0] != WAIT)
+    return {'cfg': [rng.range(0, arrivals + 1)], 'progs': progs, 'sched': []}
